@@ -461,6 +461,16 @@ def run(tier: str, only_key: dict | None = None) -> int:
     if rp['violated'] not in ('C08_restore', 'C08_fresh'):
         raise MachineryFailure('pinned client design no longer violates C08_restore/C08_fresh: vacuity guard')
     res.cov['pinned_design_counterexample'] = rp['violated']
+    # Memo.tla: a table keyed by any proper subset of a function's arguments is exposed by a base run followed by its one-figure
+    # neighbours in one process (and by a two-valued grid), not by unrelated runs - the design argument for the neighbour sequences below
+    mm = tlc.run_tlc('Memo', 'MC_Memo.cfg', workers=4, timeout=1200)
+    tlc.check_mc(mm, 'MC_Memo.cfg', ['Call'])
+    if mm['violated']:
+        raise MachineryFailure(f'Memo.tla violates {mm["violated"]}')
+    res.add_mc(mm, 'MC_Memo.cfg (incomplete memo keys vs neighbour chains)')
+    mu = tlc.run_tlc('Memo', 'MC_Memo_unrelated.cfg', workers=4, coverage=False, timeout=1200)
+    if mu['violated'] != 'UnrelatedDetects':
+        raise MachineryFailure('Memo.tla: unrelated runs expected NOT to expose an incomplete key (vacuity guard)')
     d = tlc.run_tlc('Client', 'Dump_Client.cfg', workers=1, coverage=False, timeout=2400)
     tlc.check_mc(d, 'dump')
     hists = [p for p in d['prints'] if isinstance(p, dict) and 'ops' in p]
